@@ -131,6 +131,10 @@ fn c14_structured(leg: &mut Leg, orig: &rn::Msg, mode: rn::Compress) {
             }
             match m2 {
                 Err(e) => leg.violation(format!("C14/own-encoding-rejected/{}", size_class(b2.len())), format!("{} octets: {}", b2.len(), e), replay),
+                Ok(m2) if m2 != m && m2.tc && !m.tc && b2.len() > 60_000 => {
+                    // the tree's own encoding of this message did not fit 65535 octets and was cut (TC set): outside the quantifier
+                    leg.count("own_encoding_beyond_65535_skipped", 1);
+                }
                 Ok(m2) if m2 != m => leg.violation(format!("C14/roundtrip-differs/{}", size_class(b2.len())), format!("{} records, {} octets", nrec, b2.len()), replay),
                 Ok(_) => match rn::decode(&b2, true) {
                     Err(e) => leg.violation(format!("C14/bad-compression-pointer/{}", size_class(b2.len())), format!("{} octets: {}", b2.len(), e), replay),
